@@ -465,6 +465,9 @@ func init() {
 		if *what == "file" {
 			all = nil
 		}
+		if *what == "missz" {
+			all = nil // only the scenarios in which several goroutines reach one unavailable shard (C12)
+		}
 		for _, warm := range []string{"cold", "halfwarm", "warm"} {
 			for _, ops := range all {
 				for _, f := range []int{8, 256} {
@@ -482,7 +485,7 @@ func init() {
 			mixed = append(mixed, append(kinds, "lookupMiss")[i%6])
 		}
 		for _, warm := range []string{"cold", "halfwarm"} {
-			if *what == "file" {
+			if *what == "file" || *what == "missz" {
 				break
 			}
 			cc := &ConcCase{Fam: "conc", ID: fmt.Sprintf("conc-dir-mixed-%s", warm), What: "dir", Fanout: 8, Warm: warm, Ops: mixed, Reps: *reps * 3, Yield: true}
@@ -503,6 +506,9 @@ func init() {
 		}
 		// many goroutines looking up members and non-members of larger directories (plain with 48 and 300 entries,
 		// sharded with 300 and 1500 entries), cold and after a first lookup of an absent name
+		if *what == "missz" {
+			return nil
+		}
 		if *what != "file" {
 			for _, nf := range [][2]int{{48, 0}, {300, 0}, {300, 16}, {1500, 256}} {
 				for _, warm := range []string{"cold", "warm"} {
